@@ -1060,6 +1060,12 @@ class Process(StateMachine, persistence.Savable, metaclass=ProcessStateMachineMe
             with kiwipy.capture_exceptions(kiwi_future):
                 try:
                     result = callback(*args, **kwargs)
+                except asyncio.CancelledError:
+                    # The call itself ended with a cancellation (e.g. it asked a cancelled future for its result), which
+                    # neither ``capture_exceptions`` nor the handler below sees: tell the sender instead of leaving
+                    # the reply pending forever
+                    kiwi_future.cancel()
+                    return
                 except Exception as exc:
                     import inspect
                     import traceback
